@@ -1,8 +1,11 @@
 """C09 - Reserved and de-configured IPs are never allocated; reload is lossless."""
 import ipamcheck
 
-THEOREMS = ["never_hand_reserved", "tables_are_configured", "reload_lossless", "reject_changes_nothing"]
+THEOREMS = ["never_hand_reserved", "tables_are_configured", "reload_lossless", "reject_changes_nothing",
+            "requests_keep_store_objects", "reservations_survive_requests", "reservations_survive_requests_nonvacuous"]
 REFUTED = []
+# plugin level (Props/C09p.v, proofs in Proofs/PluginAnswerP.v)
+PLUGIN_THEOREMS = ["bound_ip_is_configured", "plugin_tables_are_configured", "rejected_reload_changes_nothing", "failed_list_changes_nothing"]
 
 MANIFEST = {
     "text": "Coq theorems over all reachable crdIpam states: never_hand_reserved (every IP handed out by a fresh allocation had NO "
@@ -10,7 +13,7 @@ MANIFEST = {
             "reload_lossless (a reload keeps exactly the persisted allocations still configured and drops exactly the others), "
             "reject_changes_nothing. Tied to the code by histories mixing administrator reservations, watch-event timing, reload "
             "sequences and requests arriving while ConfigurePool lists the store (second goroutine at the List call), real crdIpam "
-            "vs model step by step, plus monitors mon_fresh / mon_reload / allocation-during-reload-kept on the implementation.",
+            "vs model step by step, plus monitors mon_fresh / mon_reload / allocation-during-reload-kept on the implementation. requests_keep_store_objects / reservations_survive_requests: an allocation request - successful, failed at any store call, rolled back - never rewrites or removes an object the store held before it, and never names its IP. Plugin level (Props/C09p.v): bound_ip_is_configured, plugin_tables_are_configured (every reachable world), rejected_reload_changes_nothing, failed_list_changes_nothing.",
     "note": "trusted: Coq kernel (no axioms); fake API server; informer events delivered on request through a verif hook; "
             "ConfigurePool atomic (fix cdfc2c2) - the interleaving part of the quantifier is discharged by atomicity in the model and "
             "exercised on the code by the list-time yield point; the scheduler plugin's reload path (configmap tick -> ensureIPAMConf "
@@ -31,7 +34,7 @@ def run(ctx):
     # plugin level: the reload path of the scheduler plugin (ensureIPAMConf: a reload whose List failed is retried by the next
     # tick; ranges taken away are not handed out afterwards), real FloatingIPPlugin vs Model/Plugin.v
     import plugincheck
-    plugincheck.run(ctx, "C09", [], [], plugincheck.mon_c09_plugin, nrandom=(20, 200), incarnations=False, fixed=False,
+    plugincheck.run(ctx, "C09", PLUGIN_THEOREMS, [], plugincheck.mon_c09_plugin, module="C09p", nrandom=(20, 200), incarnations=False, fixed=False,
                     extra_scenarios=plugincheck.reload_scenarios(ctx.rng, ctx))
 
 
